@@ -9,7 +9,7 @@ from core import Case, nlist
 from pyerr import canon_call, exc_code
 
 PROP = 'C09'
-COQ_TARGETS = ['theories/BvllTotal.vo']
+COQ_TARGETS = ['theories/BvllStable.vo']
 COQ_IMPORTS = 'From Bac Require Import Base Bvll.'
 TABLE_OBLIGATIONS = ['registry_table_exact', 'ctor_function_table', 'ctor_type_table', 'message_type_table',
                      'ctor_length_table']
@@ -594,8 +594,15 @@ def spec_params(m):
 def try_decode(octets):
     """('ok', obj) | ('refused', None) | ('error', exception name)"""
     from bacpypes.errors import DecodingError
+    from bacpypes.pdu import PDU
     try:
-        return 'ok', decode_obj(octets)
+        u, c, d = stack()
+        d.response(PDU(bytes(octets)))
+        if len(u.got) == 1:
+            return 'ok', u.got[0]
+        if not u.got:
+            return 'refused', None          # dropped without an exception: also a refusal
+        return 'error', 'delivered-%d-messages' % len(u.got)
     except DecodingError:
         u, c, d = _STACK[0]
         if u.got:
@@ -667,6 +674,26 @@ def direct(rng, tier, focus=()):
                 fail('roundtrip-differs', msg=jdesc(m), octets=bs.hex()[:400], got=got[:80], want=spec_params(m)[:80])
         frames.append(want)
     samples.append({'direct': 'layout+length+roundtrip', 'msg': jdesc(specs[5]), 'frame': spec_frame(specs[5]).hex()[:120]})
+
+    # 1b. parameters changed after construction: the encoder may refuse, but a frame that does come out
+    #     must still carry its own octet count and the layout of the parameters it was encoded from
+    for ctor, fin in stale_pairs(rng):
+        stats['evaluations'] += 1
+        try:
+            u, c, d = stack()
+            u.request(build_stale(ctor, fin))
+            bs = bytes(d.got[0].pduData) if len(d.got) == 1 else None
+        except Exception:
+            continue
+        if bs is None:
+            continue
+        if len(bs) < 4 or bs[0] != 0x81 or bs[1] != CODES[fin[0]]:
+            fail('type-octet' if (len(bs) < 1 or bs[0] != 0x81) else 'function-code', msg=jdesc(fin), ctor=jdesc(ctor), octets=bs.hex()[:400])
+        elif bs[2] * 256 + bs[3] != len(bs):
+            fail('length-field', msg=jdesc(fin), ctor=jdesc(ctor), declared=bs[2] * 256 + bs[3], actual=len(bs), octets=bs.hex()[:400])
+        elif bs != spec_frame(fin):
+            fail('layout', msg=jdesc(fin), ctor=jdesc(ctor), octets=bs.hex()[:400], want=spec_frame(fin).hex()[:400])
+        nontriv.add(('stale', repr(ctor), repr(fin)))
 
     # 2. refusals: type octet, length field, datagram length
     uniq = sorted(set(frames), key=lambda b: (len(b), b))
